@@ -87,6 +87,7 @@ class SymCond:
 def bitio_unit(p, item, tier, seed):
     lengths, offset = item[0], item[1]
     pins = item[2] if len(item) > 2 else None
+    peek = item[3] if len(item) > 3 else None  # bytes(writer) is taken once after this many numbers, then writing goes on
     vs = [z3.BitVec(f"v{i}", W) for i in range(len(lengths))]
     if pins is None:
         base = [z3.ULT(v, 1 << min(L + 1, W - 1)) for v, L in zip(vs, lengths)]  # allows one oversize bit
@@ -100,7 +101,9 @@ def bitio_unit(p, item, tier, seed):
         w = bit_io.BitWriter()
         for _ in range(offset):
             w.write(True)
-        for v, L in zip(vs, lengths):
+        for i, (v, L) in enumerate(zip(vs, lengths)):
+            if peek == i:
+                bytes(w)  # an observer: taking the bytes written so far must not change what is written later
             w.write_number(SymInt(v), L)
         data = bytes(w)
         r = bit_io.BitReader(data)
@@ -117,7 +120,7 @@ def bitio_unit(p, item, tier, seed):
         return data, got, rest
 
     paths, stats = forkexec.explore(body, base=base, max_paths=20000, catch=(Exception,))
-    p.case(("bitio", tuple(lengths), offset), sample=f"write_number lengths={lengths} after {offset} bits: {stats['paths']} paths" if len(p.samples) < 3 else None)
+    p.case(("bitio", tuple(lengths), offset, peek), sample=f"write_number lengths={lengths} after {offset} bits: {stats['paths']} paths" if len(p.samples) < 3 else None)
     p.count("bitio_paths", stats["paths"])
     p.queries["unsat"] += 1 if stats["covered"] else 0
     if not stats["covered"]:
@@ -147,11 +150,11 @@ def bitio_unit(p, item, tier, seed):
             if m is None:
                 r, m = p.check([pc], label="bitio-witness")
             vals = [m.eval(v, model_completion=True).as_long() for v in vs]
-            p.violation(f"bitio:{bad.split(' ')[0]}", f"write_number values {vals} lengths {lengths} offset {offset}: {bad}",
+            p.violation(f"bitio:{bad.split(' ')[0]}{':bytes-taken-midway' if peek is not None else ''}", f"write_number values {vals} lengths {lengths} offset {offset}{'' if peek is None else f' (bytes(writer) taken once after {peek} numbers)'}: {bad}",
                         REPLAY_PRELUDE + "from cirbo.circuits_db import bit_io\nfrom cirbo.circuits_db.exceptions import BitIOError\n"
-                        f"vals={vals!r}; lengths={lengths!r}; offset={offset}\nw=bit_io.BitWriter()\n"
+                        f"vals={vals!r}; lengths={lengths!r}; offset={offset}; peek={peek!r}\nw=bit_io.BitWriter()\n"
                         "for _ in range(offset): w.write(True)\nbad=[]\nfits=all(v < (1<<L) for v,L in zip(vals,lengths))\n"
-                        "try:\n    for v,L in zip(vals,lengths): w.write_number(v,L)\n    raised=False\nexcept BitIOError:\n    raised=True\n"
+                        "try:\n    for i,(v,L) in enumerate(zip(vals,lengths)):\n        if peek==i: bytes(w)\n        w.write_number(v,L)\n    raised=False\nexcept BitIOError:\n    raised=True\n"
                         "if raised==fits: bad.append('BitIOError iff value does not fit violated')\n"
                         "if not raised:\n    data=bytes(w); r=bit_io.BitReader(data)\n    for _ in range(offset): r.read()\n"
                         "    got=[r.read_number(L) for L in lengths]\n    if got!=vals: bad.append(('roundtrip',got))\n"
@@ -479,6 +482,8 @@ def run(rep, tier, seed, only=None):
         rnd = random.Random(seed)
         rnd.shuffle(items)
         items = items[: (400 if thorough else 60)]
+        # the same with bytes(writer) observed once in the middle of the stream
+        items += [(lens, off, None, k) for lens, off in [it[:2] for it in items[: (120 if thorough else 24)]] for k in range(len(lens)) if off + sum(lens[:k]) > 0]
         # byte-aligned wide numbers (16, 24, 32 bits at offsets 0 and 8): high bits pinned, low bits symbolic
         wide = (([16], 0), ([16], 8), ([24], 0), ([8, 16], 0))
         if thorough:
